@@ -10,7 +10,7 @@ use_repo()
 from pedal.core.commands import (clear_report, compliment, explain, gently, give_partial, guidance,  # noqa: E402
                                  set_correct, suppress)
 from pedal.core.feedback import Feedback  # noqa: E402
-from pedal.core.report import MAIN_REPORT  # noqa: E402
+from pedal.core.report import MAIN_REPORT, Report  # noqa: E402
 from pedal.resolvers import simple, full, sectional  # noqa: E402
 
 # The order stated in the property text (C01), independent of the code.
@@ -95,7 +95,14 @@ def gen_case(rng, *, max_fb=5, malformed=False, score_rate=0.4, offgrid=False):
         fl = dict(rng.choice([{'k': 1}, {'k': 2}, {'j': 1, 'k': 2}, {'k': 'v'}, {'zz': 0}]))
         s = {0: [c, True, None], 1: [c, lab, None], 2: [None, lab, None], 3: [c, lab, fl], 4: [None, lab, fl]}[form]
         sups.append(s)
-    return {"fbs": fbs, "sups": sups}
+    case = {"fbs": fbs, "sups": sups}
+    # history dimensions (the outcome must not depend on them): suppress() calls made BEFORE / BETWEEN the feedback
+    # they are aimed at, and a report object of the grader's own instead of MAIN_REPORT
+    if sups and rng.random() < 0.4:
+        case["sup_at"] = [rng.randint(0, len(fbs)) for _ in sups]      # number of feedbacks created before this call
+    if rng.random() < 0.2:
+        case["own_report"] = True
+    return case
 
 
 CTORS = {"Feedback": Feedback, "gently": gently, "explain": explain, "compliment": compliment,
@@ -103,11 +110,24 @@ CTORS = {"Feedback": Feedback, "gently": gently, "explain": explain, "compliment
 
 
 def build(case):
-    """Create the case's feedback on a cleared MAIN_REPORT; returns created objects in creation order."""
+    """Create the case's feedback on a cleared MAIN_REPORT (or on a fresh Report of its own when the case says so);
+    returns created objects in creation order.  `sup_at[i]` = how many feedbacks exist when suppress call i is made
+    (default: all of them)."""
     clear_report()
+    own = Report() if case.get("own_report") else None
+    build.report = own
+    rk = {"report": own} if own is not None else {}
     objs = []
-    for ctor, kw in case["fbs"]:
+    sup_at = case.get("sup_at") or [len(case["fbs"])] * len(case["sups"])
+
+    def do_sups(n_created):
+        for (c, l, f), at in zip(case["sups"], sup_at):
+            if at == n_created:
+                suppress(c, l, dict(f) if f is not None else None, **rk)
+    for i, (ctor, kw) in enumerate(case["fbs"]):
+        do_sups(i)
         kw = dict(kw)
+        kw.update(rk)
         if 'fields' in kw:
             kw['fields'] = dict(kw['fields'])
         if ctor == "give_partial":
@@ -118,9 +138,11 @@ def build(case):
             objs.append(CTORS[ctor](m, **kw))
         else:
             objs.append(CTORS[ctor](**kw))
-    for c, l, f in case["sups"]:
-        suppress(c, l, dict(f) if f is not None else None)
+    do_sups(len(case["fbs"]))
     return objs
+
+
+build.report = None
 
 
 def score_hundredths(x):
@@ -133,7 +155,7 @@ def run_real(case):
     """-> (observed feedback list, result dict)"""
     objs = build(case)
     try:
-        r = simple.resolve()
+        r = simple.resolve(build.report) if build.report is not None else simple.resolve()
     except Exception as e:
         res = {"error": type(e).__name__, "detail": str(e)[:200]}
     else:
@@ -401,14 +423,15 @@ def shrink(case, still_fails):
 def oracle_other_resolvers(case):
     """None if full/sectional agree with simple on this report, else (signature, what)."""
     objs = build(case)
+    ra = (build.report,) if build.report is not None else ()     # the report the case was built on
     try:
-        base = simple.resolve()
+        base = simple.resolve(*ra)
     except Exception:
         return None                      # raising is simple's own matter (oracle_c01)
     sups = case["sups"]
     view = lambda r: (r.label, r.title, r.message, r.category, r.correct, score_hundredths(r.score))
     try:
-        fr = full.resolve()
+        fr = full.resolve(*ra)
     except Exception as e:
         return ({"resolver": "full", "raises": type(e).__name__}, "full.resolve raised %s: %s" % (type(e).__name__, e))
     if view(fr) != view(base):
@@ -423,7 +446,7 @@ def oracle_other_resolvers(case):
         if not ((bool(u) and not u.muted) or (not bool(u) and u.else_message)):
             return ({"resolver": "full", "used": "ineligible"}, "full.used contains muted/untriggered feedback %r" % (u.label,))
     try:
-        sr = sectional.resolve()
+        sr = sectional.resolve(*ra)
     except Exception as e:
         return ({"resolver": "sectional", "raises": type(e).__name__},
                 "sectional.resolve raised %s: %s" % (type(e).__name__, e))
